@@ -700,8 +700,77 @@ def shrink(ctx, failure):
 
 
 
+def cancel_nested(ctx, n):
+    """directed family: a child is cancelled while it is suspended in the body of its OWN nested scope, and a child of
+    that nested scope fails in the same time step or later.  From the text: the awaiter gets TaskCancelled(task, token)
+    in that time step, the parent scope and the sibling carry on.  (If the inner child fails in an EARLIER step the
+    worker fails by itself - not generated.)"""
+    from harness import dsl
+    for _ in range(n):
+        d = ctx.rng.choice([1, 2, 3, 5])
+        dfail = d + ctx.rng.choice([0, 0, 0, 1, 3])
+        dsib = d + ctx.rng.choice([1, 4, 15])
+        tok = ctx.rng.choice([3, 7])
+        inner_first = ctx.rng.random() < 0.5      # is the inner child's timer queued before or after the canceller's?
+        failing = [['await', ['delay', dfail]], ['raise', ctx.rng.choice([0, 1, 2])]]
+        worker = [['scope', 2, [['do', 2, 2, ['now'], False, failing], ['await', ['delay', d + 10]], ['log', 4]]], ['log', 5]]
+        canceller = [['await', ['delay', d]], ['cancel', 1, tok],
+                     ['try', [['await_task', 1]], [[['task_cancelled'], [['log', 7]]], [['exception'], [['log', 8]]]], []],
+                     ['log', 9]]
+        if inner_first:
+            # the canceller suspends once more so that the worker and its child queue their timers first
+            body = [['do', 1, 1, ['now'], False, worker], ['do', 1, 3, ['now'], False, [['await', ['delay', dsib]], ['log', 6]]],
+                    ['await', ['instant']], ['await', ['instant']]] + canceller
+        else:
+            body = [['do', 1, 1, ['now'], False, worker], ['do', 1, 3, ['now'], False, [['await', ['delay', dsib]], ['log', 6]]]] + canceller
+        sc = dict(start=0, till=None, roots=[[['scope', 1, body], ['log', 10]]], nflags=1, tracked=[0], nlocks=1,
+                  nqueues=1, nchans=1, res=[])
+        tr, info = dsl.run_scenario(sc)
+        ctx.count(sc, nontrivial=True)
+        ctx.bump('family:cancel-nested')
+        logs = [(e[0], e[2]) for e in tr if len(e) == 3 and e[1] == 1]
+        if inner_first and dfail == d:
+            continue      # the inner child fails BEFORE the cancel call in that step: the worker fails by itself
+        want = [(d, 7), (d, 9), (dsib, 6), (dsib, 10)]
+        if logs != want or info['final'][0] != 90:
+            ctx.fail(sc, 'child cancelled inside its own nested scope (inner child fails at %r, cancel at %r): logged %r, '
+                         'run ended with %r; expected %r and a normal end' % (dfail, d, logs, info['final'], want),
+                     family='cancel-nested')
+
+
+def prestart_cancel(ctx, n):
+    """directed family: the creator awaits a fresh task at once (it subscribes before the task's first activation) and an
+    activity already queued in that time step cancels the task before it starts.  From the text: none of the task's
+    code runs, and EVERY awaiter - the one that subscribed before the cancel and one that asks later - gets
+    TaskCancelled(task, token) (the early one in that same time step)."""
+    from harness import dsl
+    for _ in range(n):
+        t0 = ctx.rng.choice([0, 0, 2])
+        start = ctx.rng.choice([['now'], ['now'], ['after', 2], ['at', t0 + 3]])
+        tok = ctx.rng.choice([3, 7])
+        late = ctx.rng.choice([0, 1, 4])
+        creator = ([['await', ['delay', t0]]] if t0 else []) + \
+            [['scope', 1, [['do', 1, 1, start, False, [['log', 1], ['await', ['delay', 1]], ['log', 2]]],
+                           ['try', [['await_task', 1]], [[['task_cancelled'], [['log', 7]]], [['exception'], [['log', 8]]]], []],
+                           ['log', 9]]], ['log', 10]]
+        canceller = ([['await', ['delay', t0]]] if t0 else []) + [['cancel', 1, tok], ['log', 11]] + \
+            ([['await', ['delay', late]]] if late else []) + \
+            [['try', [['await_task', 1]], [[['task_cancelled'], [['log', 12]]], [['exception'], [['log', 13]]]], []], ['log', 14]]
+        sc = dict(start=0, till=None, roots=[creator, canceller], nflags=1, tracked=[0], nlocks=1, nqueues=1, nchans=1, res=[])
+        tr, info = dsl.run_scenario(sc)
+        ctx.count(sc, nontrivial=True)
+        ctx.bump('family:prestart-cancel')
+        logs = sorted((e[0], e[2]) for e in tr if len(e) == 3 and e[1] == 1)
+        want = sorted([(t0, 11), (t0, 7), (t0, 9), (t0, 10), (t0 + late, 12), (t0 + late, 14)])
+        if logs != want or info['final'][0] != 90:
+            ctx.fail(sc, 'task cancelled before its first activation while its creator already awaits it: logged %r, run '
+                         'ended with %r; expected %r and a normal end' % (logs, info['final'], want), family='prestart-cancel')
+
+
 def run(ctx):
     _run_vertical(ctx)
+    cancel_nested(ctx, ctx.n(30, 400))
+    prestart_cancel(ctx, ctx.n(30, 400))
     # second, independent tie: task trees with cancels and status probes on the whole-program machine (whole-trace correspondence)
     from harness import machine_prop
     machine_prop.run(ctx, [('trees', 120, 3000, {})], [])
